@@ -15,15 +15,23 @@ PROPERTY = "C02"
 LEAN_MODULES = ["Proofs.C02", "Proofs.C02.Rerun"]
 DRIVERS = ["driver_core"]
 RULE = ("pairs of random histories sharing a prefix of k bars (k random, suffixes of different length and content) x market mix {probe market with "
-        "data-dependent value, two probe markets minutely+hourly, real UniLpMarket, Uni+Aave, Uni+Deribit (hourly order books), Deribit alone (prices "
-        "from the option data), GMX v1, Squeeth + its oSQTH pool} x bar interval {1min, 5min, 1h} x price frame {cells Decimal / float / int / mixed, "
-        "given as frame / series / (frame, token) tuple, with or without a watched column whose feed starts late: NaN through the common prefix, "
-        "ending inside it or beyond it} x option rows of an hour listed sorted / far expiry first / shuffled x adaptive scripted strategies whose "
-        "decisions depend on the snapshot and which own stateful triggers of every class (two installed at construction, three by initialize()). "
+        "data-dependent value, two probe markets minutely+hourly, real UniLpMarket, Uni+Aave, Uni+Deribit (hourly order books; the histories part on "
+        "the hour or in the middle of one), Deribit alone (prices from the option data), GMX v1, GMX v2 (GmxV2Market, float pool rows), Squeeth + its "
+        "oSQTH pool} x bar interval {1min, 5min, 15min, 1h} x minutes missing from the supplied market / price frames (each frame its own holes, a "
+        "coarser interval bridges them) x price frame {cells Decimal / float / int / mixed, given as frame / series / (frame, token) tuple, with or "
+        "without a watched column whose feed starts late: NaN through the common prefix, ending inside it or beyond it} x option rows of an hour "
+        "listed sorted / far expiry first / shuffled, single quotes missing from single hourly snapshots x adaptive scripted strategies whose "
+        "decisions depend on the snapshot (incl. read-only estimate_cost queries on the bar's order book, off-hour deribit deposits / withdrawals "
+        "with data-dependent amounts) and which own stateful triggers of every class (two installed at construction, three by initialize()); "
+        "seed-independent crafted pairs: off-hour balance changes around a mid-hour parting point, a held option whose quote is missing from the "
+        "last common snapshot and back afterwards, cost queries on books listed best-first. "
         "Per pair: history 1, then the SAME strategy object on the SAME frames with a fresh Actuator/Broker/markets (same process), then history 2. "
-        "Every supplied frame is hashed when built, after set_price / data hand-over and after the run (column set and order, dtypes, index incl. row "
-        "order, every cell with its Python type, nested lists); the process-wide Decimal context is compared before/after each run; bucket = "
-        "(market mix, interval, price cells/form, late-feed class, row order, prefix class, what the strategy did, triggers fired, outcome)")
+        "Compared on the common prefix: account rows, every field of every market's balance entry per bar, actions, snapshots; within each run: "
+        "the history entry of a bar as the strategy reads it right after the bar against the entry the finished run holds (append-only history). "
+        "Every supplied frame is hashed when built, after set_price / data hand-over and after the run (column labels + their dtype, column dtypes, "
+        "index class / dtype / names / freq / tz / labels in row order, attrs, every cell with its Python type, nested lists); the process-wide "
+        "Decimal context is compared before/after each run; bucket = (market mix, interval, price cells/form, late-feed class, row order, holes, "
+        "prefix class, what the strategy did, triggers fired, outcome)")
 TRUSTED = ["in-place mutation of the supplied pandas frames and rerun equality are decided by measurement only (sha1 of a canonical dump incl. nested "
            "order-book lists, at construction vs after hand-over vs after the run; second run of the same strategy object on the same frames) — a pure "
            "model cannot exhibit aliasing; the trigger part of the rerun clause is also a theorem (Proofs/C02/Rerun.lean)",
@@ -33,8 +41,8 @@ ASSUMPTIONS = ["the strategy reads the data only through the snapshots it is han
                "a fresh account = new Actuator/Broker/Market objects over the same frames; the strategy object may be the same one",
                "supplied frames have a non-decreasing, duplicate-free time index (rows within one timestamp of a multi-row book may come in any order)"]
 
-KINDS = ("probe", "probe", "probe2", "uni", "uni", "uni+aave", "uni+deribit", "deribit", "gmx", "squeeth")
-LIGHT = ("probe", "probe", "probe2", "uni", "uni", "uni+aave", "deribit", "gmx", "squeeth")
+KINDS = ("probe", "probe", "probe2", "uni", "uni", "uni+aave", "uni+deribit", "deribit", "gmx", "gmx2", "squeeth", "squeeth")
+LIGHT = ("probe", "probe2", "uni", "uni", "uni+aave", "deribit", "gmx", "gmx2", "gmx2", "squeeth", "squeeth")
 HOURLY = ("uni+deribit", "deribit")
 
 
@@ -57,10 +65,12 @@ def gen_bars(rng, n, tick0):
 
 def gen_pair(rng, kind=None, small=False):
     kind = kind or rng.choice(KINDS)
-    interval = (rng.choice((1, 1, 60)) if kind == "uni+deribit" else 60 if kind == "deribit" else rng.choice((1, 1, 5)) if kind in ("gmx", "squeeth")
+    interval = (rng.choice((1, 1, 60)) if kind == "uni+deribit" else 60 if kind == "deribit" else
+                rng.choice((1, 1, 5, 5, 15, 60)) if kind in ("gmx", "gmx2") else rng.choice((1, 1, 5, 5, 15)) if kind == "squeeth"
                 else rng.choice((1, 1, 1, 5, 5, 60)))
     unit = interval if kind not in HOURLY else 60
-    nb = rng.randint(2, 40) if unit == 1 else rng.randint(2, 8) if unit == 5 else rng.randint(2, 2 if small else 4 if kind != "deribit" else 6)
+    nb = (rng.randint(2, 40) if unit == 1 else rng.randint(2, 8) if unit == 5 else rng.randint(2, 5) if unit == 15
+          else rng.randint(2, 2 if small else 4 if kind != "deribit" else 6))
     k_units = rng.randint(1, nb)                                    # the common prefix, in complete bins
     start = 3600 * rng.randint(0, 12)
     tick0 = 201000 + rng.randint(-300, 300)
@@ -69,7 +79,17 @@ def gen_pair(rng, kind=None, small=False):
     last = pre[-1]["close"]
     s1 = gen_bars(rng, rng.randint(0, nb - k_units + 2) * unit + (rng.randint(0, unit - 1) if unit > 1 else 0), last)
     s2 = gen_bars(rng, rng.randint(1, nb - k_units + 3) * unit, last + rng.randint(-400, 400))
-    case = {"kind": kind, "interval": interval, "start": start, "k": k_units * unit, "pre": pre, "s1": s1, "s2": s2, "seed": rng.randint(0, 10 ** 9)}
+    if kind == "uni+deribit" and interval == 1 and rng.random() < 0.7:
+        # a minutely run next to the hourly book: the two histories part in the middle of an hour (the book rows are those of the whole hours)
+        extra = gen_bars(rng, rng.randint(1, 45), last)
+        pre, last = pre + extra, extra[-1]["close"]
+        s1 = gen_bars(rng, rng.choice((0, rng.randint(1, 30))), last)
+        s2 = gen_bars(rng, rng.randint(2, 30), last + rng.randint(-40, 40))
+    case = {"kind": kind, "interval": interval, "start": start, "k": len(pre), "pre": pre, "s1": s1, "s2": s2, "seed": rng.randint(0, 10 ** 9)}
+    # minutes missing from the supplied frames (each frame its own): a coarser bar interval bridges them (the first row of a bin is then not its
+    # first minute); which minutes are missing is a function of the bin's own data, so histories that share a prefix share its holes
+    if interval > 1 and kind in ("gmx", "gmx2", "squeeth", "probe", "probe2", "uni", "uni+aave") and rng.random() < 0.6:
+        case["holes"] = rng.randint(1, 10 ** 6)
     # what the cells of the supplied price frame hold and how set_price is given it
     if kind.startswith("probe"):
         case["price_kind"], case["form"], case["aux"] = rng.choice(PRICE_KINDS), rng.choice(FORMS), rng.random() < 0.6
@@ -99,8 +119,11 @@ def digest(x) -> str:
     cell together with the Python type it holds (Decimal('1'), 1 and 1.0 are three different cells; nested order-book lists go in by repr).
     Independent of object identity; an added or dropped column, a converted cell and a changed dtype all change it."""
     if isinstance(x, pd.DataFrame):
-        parts = ["columns=" + repr([repr(c) for c in x.columns]), "dtypes=" + repr([str(t) for t in x.dtypes]),
-                 "index=" + str(x.index.dtype) + repr(list(x.index.names)) + repr([repr(i) for i in x.index.tolist()])]
+        parts = ["columns=" + repr([repr(c) for c in x.columns]) + str(x.columns.dtype) + repr(list(x.columns.names)),
+                 "dtypes=" + repr([str(t) for t in x.dtypes]),
+                 "index=" + type(x.index).__name__ + str(x.index.dtype) + repr(list(x.index.names)) + repr(getattr(x.index, "freq", None)) +
+                 repr(getattr(x.index, "tz", None)) + repr([repr(i) for i in x.index.tolist()]),
+                 "attrs=" + repr(sorted(x.attrs.items(), key=repr)) + repr(x.flags.allows_duplicate_labels)]
         for j in range(x.shape[1]):
             parts.append("|".join(cell(v) for v in x.iloc[:, j].tolist()))
         body = "\n".join(parts)
@@ -161,6 +184,8 @@ def book_rows(case, bars, times, start):
                 # later; which quotes are missing is a function of the hour's own data, so histories that share a prefix share its holes
                 if case.get("book_holes") and j > 0 and (b["v"] + j) % 3 == 0:
                     continue
+                if j in case.get("missing", {}).get(str((t - start) // 3600), ()):
+                    continue
                 hour.append({"time": cl.at(t), "instrument_name": name, "state": "open", "type": "CALL", "strike_price": strike,
                              "expiry_time": cl.at(start - start % 86400 + 86400 * days), "gamma": 0.001, "delta": 0.5,
                              "underlying_price": float(b["S"] + 10 * j), "mark_price": b["ask"] * 0.0005,
@@ -175,6 +200,24 @@ def book_rows(case, bars, times, start):
         return None
     df = pd.DataFrame(rows).set_index(["time", "instrument_name"])
     return df.sort_index() if order == "sorted" else df
+
+
+def keep_mask(case, bars, salt):
+    """which minutes of a supplied frame exist (all, unless the case has holes): per bin of the bar interval a data-dependent choice, never the
+    whole bin; the first and the last minute of the history are always there (the price frame has to cover the market data)"""
+    n, iv, h = len(bars), case["interval"], case.get("holes")
+    keep = [True] * n
+    if not h:
+        return keep
+    for b0 in range(0, n, iv):
+        idxs = list(range(b0, min(b0 + iv, n)))
+        drop = [i for i in idxs if (bars[i]["v"] * 7 + bars[i]["p"] + salt + h) % 3 == 0]
+        if len(drop) == len(idxs):
+            drop = drop[1:]
+        for i in drop:
+            keep[i] = False
+    keep[0] = keep[n - 1] = True
+    return keep
 
 
 def make_inputs(case, bars):
@@ -198,6 +241,9 @@ def make_inputs(case, bars):
         if (case.get("aux") or case.get("late")) and form != "series":
             cols["ETH"] = with_late_feed(price_column(pk if pk != "int" or not case.get("late") else "float", [Decimal(b["S"]) for b in bars]), case.get("late"))
         price = pd.DataFrame({k: v.values for k, v in cols.items()}, index=index)
+        if case.get("holes"):
+            price = price[keep_mask(case, bars, 1)]
+            fr["m0"] = fr["m0"][keep_mask(case, bars, 5)]
         if form == "series":
             supplied = price["USDC"].copy()
             inp["set_price"] = (supplied, usdc)
@@ -226,6 +272,34 @@ def make_inputs(case, bars):
         price["USDC"] = Decimal(1)
         if case.get("late"):
             price["BTC"] = with_late_feed(pd.Series([Decimal(b["p"] * 30) for b in bars], dtype=object), case["late"]).values
+        if case.get("holes"):
+            price = price[keep_mask(case, bars, 1)]
+            fr["gmx"] = fr["gmx"][keep_mask(case, bars, 2)]
+        fr["price"] = price
+        inp["set_price"] = (price,)
+    elif kind == "gmx2":
+        from demeter.gmx._typing2 import GmxV2Pool
+        from demeter.gmx.helper2 import get_price_from_v2_data
+        inp["gm_pool"] = GmxV2Pool(weth, usdc, weth)
+        rows = []
+        for b in bars:
+            lp = float(b["S"])
+            la, sa = 3000.0 + b["in0"] / 1e8, 6e6 + b["in1"] / 1e13
+            pv = la * lp + sa + b["n0"] / 1e5
+            rows.append(dict(longAmount=la, shortAmount=sa, virtualSwapInventoryLong=la * 2, virtualSwapInventoryShort=sa * 2, poolValue=pv,
+                             marketTokensSupply=pv / (1.2 + (b["v"] % 10) / 100), impactPoolAmount=float(b["v"]), longPrice=lp,
+                             shortPrice=1.0 - (b["p"] - 1000) / 1e6, indexPrice=lp))
+        fr["gmx2"] = pd.DataFrame(rows, index=index)
+        price = get_price_from_v2_data(fr["gmx2"], inp["gm_pool"])
+        if case.get("late"):
+            price = price.copy()
+            price["BTC"] = with_late_feed(pd.Series([float(b["p"] * 30) for b in bars], dtype="float64"), case["late"]).values
+        if pk == "decimal":
+            from demeter.utils import to_decimal
+            price = price.map(to_decimal)
+        if case.get("holes"):
+            price = price[keep_mask(case, bars, 1)]
+            fr["gmx2"] = fr["gmx2"][keep_mask(case, bars, 3)]
         fr["price"] = price
         inp["set_price"] = (price,)
     elif kind == "squeeth":
@@ -252,6 +326,9 @@ def make_inputs(case, bars):
         price = sq_price(fr["squeeth"])
         if case.get("late"):
             price["BTC"] = with_late_feed(pd.Series([Decimal(b["p"] * 30) for b in bars], dtype=object), case["late"]).values
+        if case.get("holes"):
+            price = price[keep_mask(case, bars, 1)]
+            fr["squeeth"] = fr["squeeth"][keep_mask(case, bars, 4)]
         fr["price"] = price
         inp["set_price"] = (price,)
     else:
@@ -289,6 +366,8 @@ def make_inputs(case, bars):
             price = price.map(to_decimal)
         if case.get("late"):                    # a token the strategy only watches; its feed starts late
             price["BTC"] = with_late_feed(pd.Series([Decimal(b["p"] * 30) for b in bars], dtype=object), case["late"]).values
+        if case.get("holes"):
+            price = price[keep_mask(case, bars, 1)]
         fr["price"] = price
         inp["set_price"] = ((price, quote),) if form != "frame" else (price, quote)
     inp["pristine"] = {k: digest(v) for k, v in fr.items()}
@@ -343,7 +422,11 @@ def strategy_class():
                 obs["snaps"].append(("refused", type(e).__name__))
 
         def before_bar(self, snap):
-            self.env["obs"]["snaps"].append(("before", snap_digest(snap)))
+            obs = self.env["obs"]
+            if self.account_status:
+                # the entry of the bar that has just ended, as the strategy reads it now (strategy.account_status is the live history)
+                obs["then"].append([str(v) for v in self.account_status[-1].to_array()])
+            obs["snaps"].append(("before", snap_digest(snap)))
 
         def on_bar(self, snap):
             obs = self.env["obs"]
@@ -360,6 +443,45 @@ def strategy_class():
     return Adaptive
 
 
+def deribit_steps(dm, obs, steps, snap, data_value):
+    """scripted deribit actions of a crafted case; `data_value` is a number read from the bar's own data"""
+    for st in steps:
+        what = st[0]
+        if what == "deposit":
+            dm.deposit(Decimal(st[1]))
+        elif what == "deposit_data":
+            dm.deposit(Decimal(1 + data_value % 3))            # an amount that depends on this bar's data
+        elif what == "withdraw":
+            dm.withdraw(Decimal(st[1]))
+        elif what == "buy":
+            dm.buy(st[1], st[2])
+        elif what == "sell":
+            dm.sell(st[1], st[2])
+        elif what == "estimate":
+            estimates(dm, obs, st[1], st[2])
+        obs["did"].add("plan-" + what)
+
+
+def estimates(dm, obs, name, amount):
+    """read-only cost queries on the bar's book: market order and an order at the price of the best level, both sides; what they answer is part
+    of what the strategy sees"""
+    row = dm.market_status.data
+    if row is None or not len(row) or name not in row.index:
+        return
+    inst = row.loc[name]
+    for side, levels in (("buy", inst["asks"]), ("sell", inst["bids"])):
+        if not levels:
+            continue
+        best = (min if side == "buy" else max)(lv[0] for lv in levels)
+        for price in (None, best):
+            try:
+                est = dm.estimate_cost(name, amount, side, price)
+            except Exception as e:  # noqa: BLE001
+                est = type(e).__name__
+            obs["snaps"].append(("estimate-cost", name, side, str(price), str(est)))
+    obs["did"].add("estimate-cost")
+
+
 def assemble(case, inp, strategy=None):
     """fresh Actuator, Broker and market objects over the frames of `inp`; the strategy object is new unless one is handed in"""
     cl.setup()
@@ -369,7 +491,7 @@ def assemble(case, inp, strategy=None):
     usdc, eth, weth = tk["usdc"], tk["eth"], tk["weth"]
     a = Actuator()
     markets, internal = {}, {}
-    obs = {"snaps": [], "did": set()}
+    obs = {"snaps": [], "did": set(), "then": []}
     if kind.startswith("probe"):
         PM = cl.make_market_class()
         rec = cl.Recorder()
@@ -408,11 +530,16 @@ def assemble(case, inp, strategy=None):
 
         def act(snap):
             st = snap.market_status[dm.market_info]
+            if case.get("plan") is not None:
+                deribit_steps(dm, obs, case["plan"].get(str(snap.row_id), []), snap, int(float(st.iloc[0]["underlying_price"])) if len(st) else 0)
+                return
             if snap.row_id == 0:
                 dm.deposit(5)
                 obs["did"].add("deposit")
             if len(st):
                 mark = round(float(st.iloc[0]["mark_price"]) * 2000)
+                if mark % 2 == 0:
+                    estimates(dm, obs, "ETH-X-1700-C", 2)
                 if mark % 3 == 0:
                     dm.buy("ETH-X-1700-C", 3)
                     obs["did"].add("option")
@@ -450,6 +577,34 @@ def assemble(case, inp, strategy=None):
 
         def light(snap, tid):
             gm.buy_glp(usdc, Decimal(10))
+    elif kind == "gmx2":
+        from demeter.gmx import GmxV2Market
+        g2 = GmxV2Market(MarketInfo("gmx2", MarketTypeEnum.gmx_v2), inp["gm_pool"])
+        g2.data = fr["gmx2"]
+        a.broker.add_market(g2)
+        markets["gmx2"] = g2
+        a.broker.set_balance(weth, Decimal(10))
+        a.broker.set_balance(usdc, Decimal(20000))
+        a.set_price(*inp["set_price"])
+
+        def act(snap):
+            st = snap.market_status[g2.market_info]
+            v = int(st["impactPoolAmount"])
+            if v % 4 == 0:
+                g2.deposit(0.5, 0)
+                obs["did"].add("gm-deposit-long")
+            elif v % 4 == 1 and g2.amount > 0:
+                g2.withdraw(g2.amount / 2)
+                obs["did"].add("gm-withdraw")
+            elif v % 4 == 2:
+                g2.deposit(0, 300)
+                obs["did"].add("gm-deposit-short")
+            else:
+                g2.deposit(0.1, 150)
+                obs["did"].add("gm-deposit-both")
+
+        def light(snap, tid):
+            g2.deposit(0, 10)
     elif kind == "squeeth":
         from demeter.uniswap import UniLpMarket
         from demeter.squeeth import SqueethMarket
@@ -515,6 +670,9 @@ def assemble(case, inp, strategy=None):
             st = snap.market_status[um.market_info]
             tick = int(st.closeTick)
             p = st.price
+            if case.get("plan") is not None:
+                deribit_steps(markets["deribit"], obs, case["plan"].get(str(snap.row_id), []), snap, tick)
+                return
             if tick % 5 == 0 and len(um.positions) < 2:
                 um.add_liquidity(p * Decimal("0.9"), p * Decimal("1.1"), Decimal(1), p)
                 obs["did"].add("add")
@@ -544,6 +702,8 @@ def assemble(case, inp, strategy=None):
                     obs["did"].add("borrow")
             if "deribit" in markets:
                 dm_ = markets["deribit"]
+                if dm_.is_open and tick % 3 == 0:
+                    estimates(dm_, obs, "ETH-X-1700-C", 2)
                 if dm_.is_open and tick % 2 == 0:
                     dm_.buy("ETH-X-1700-C", 3)
                     obs["did"].add("option")
@@ -559,7 +719,7 @@ def assemble(case, inp, strategy=None):
 
         def light(snap, tid):
             um.sell(Decimal("0.01"))
-    a.interval = {1: "1min", 5: "5min", 60: "1h"}[case["interval"]]
+    a.interval = {1: "1min", 5: "5min", 15: "15min", 60: "1h"}[case["interval"]]
     if strategy is None:
         strategy = strategy_class()(case)
     strategy.env = {"obs": obs, "act": act, "light": light}
@@ -588,12 +748,13 @@ def run_once(case, inp, strategy=None):
     ctx_after = dec_context()
     after = {k: digest(v) for k, v in inp["frames"].items()}
     internal_after = {k: digest(v) for k, v in internal.items()}
-    rows, actions = [], []
+    rows, actions, entries = [], [], []
     if err is None:
         df = a.account_status_df
         rows = [[str(ix)] + [str(v) for v in r] for ix, r in zip(df.index, df.itertuples(index=False))]
         actions = [[str(x.timestamp), type(x).__name__, str(x)] for x in a.actions]
-    return {"rows": rows, "actions": actions, "snaps": obs["snaps"], "assembled": assembled, "after": after, "err": err, "did": sorted(obs["did"]),
+        entries = [[str(v) for v in s_.to_array()] for s_ in a.account_status]      # every field of every market's balance object, per bar
+    return {"entries": entries, "then": obs["then"], "rows": rows, "actions": actions, "snaps": obs["snaps"], "assembled": assembled, "after": after, "err": err, "did": sorted(obs["did"]),
             "internal": (internal_before, internal_after), "dctx": (ctx_before, ctx_after), "bars": [r[0] for r in rows], "strategy": a.strategy,
             "n_triggers": len(a.strategy.triggers)}
 
@@ -628,7 +789,8 @@ def check_pair(ctx: Ctx, case):
     pk, form = case.get("price_kind", "decimal"), case.get("form", "frame")
     late = case.get("late")
     lc = "-" if not late else "late<k" if late < case["k"] else "late=k" if late == case["k"] else "late>k"
-    tagbase = f"{kind}:i{iv}:{pk}/{form}:{lc}:{case.get('row_order', '-')}"
+    tagbase = (f"{kind}:i{iv}:{pk}/{form}:{lc}:{case.get('row_order', '-')}" + (":holes" if case.get("holes") else "") +
+               (":" + case["crafted"] if case.get("crafted") else ""))
     cl.setup()
     home = dec_context()
     i1, i2 = make_inputs(case, case["pre"] + case["s1"]), make_inputs(case, case["pre"] + case["s2"])
@@ -655,6 +817,21 @@ def check_pair(ctx: Ctx, case):
             ctx.violate(f"lookahead:{kind}:i{iv}:{name}",
                         f"{name} of bar-prefix {n_common} differ between two histories sharing {case['k']} minutes of data (first difference at item {d}: "
                         f"{str(x[d:d + 1])[:160]} vs {str(y[d:d + 1])[:160]})", rep)
+    # the account history is append-only: the entry of a bar, as the strategy could read it when the bar had just ended, is the entry the finished
+    # run holds for that bar (an entry rewritten by a later bar is look-ahead in the history of bars 0..k)
+    for r, which in ((r1, "first"), (r2, "second")):
+        for i, then in enumerate(r["then"]):
+            if then != r["entries"][i]:
+                j = first_diff(then, r["entries"][i])
+                ctx.violate(f"history-rewritten:{kind}", f"the account-history entry of bar {i} of a {kind} run read right after that bar differs from the entry "
+                            f"the finished run holds for it (field {j}: {then[j:j + 1]} then, {r['entries'][i][j:j + 1]} at the end; strategy did {r['did']}): a later "
+                            f"bar wrote into an earlier bar's entry", rep)
+                break
+    e1, e2 = r1["entries"][:n_common], r2["entries"][:n_common]
+    if e1 != e2:
+        d = first_diff(e1, e2)
+        ctx.violate(f"lookahead:{kind}:i{iv}:account-entries", f"the per-market balance entries of bar-prefix {n_common} differ between two histories sharing "
+                    f"{case['k']} minutes of data (bar {d}: {str(e1[d:d + 1])[:160]} vs {str(e2[d:d + 1])[:160]})", rep)
     # inputs intact: every supplied frame is, after set_price / data assignment and after the run, what it was when the caller built it
     for r, inp, which in ((r1, i1, "first"), (r2, i2, "second")):
         for f, h in inp["pristine"].items():
@@ -784,9 +961,53 @@ def compare_views(ctx, rep, obs, ans):
             ctx.disagree(f"Deribit hourly row: impl {obs['hour'][:6]} model {got[:6]}", rep)
 
 
+def crafted_pairs():
+    """pairs every run starts with (independent of the seed): situations the random stream reaches rarely"""
+    import random
+    rng = random.Random(20260930)
+    out = []
+    # (a) a minutely run next to the hourly option book; the histories part in the middle of the second hour; off-hour deposits / withdrawals
+    #     before and after the parting point (the later ones with an amount read from that bar's data): the entries of the earlier minutes of the
+    #     hour must not change
+    for cut, later in ((75, (78, 80)), (63, (64, 70)), (118, (119,))):
+        pre = gen_bars(rng, cut, 201000)
+        last = pre[-1]["close"]
+        plan = {"0": [["buy", "ETH-X-1700-C", 2]], "61": [["deposit", 1]], str(later[0]): [["deposit_data"]]}
+        if len(later) > 1:
+            plan[str(later[1])] = [["withdraw", 1]]
+        out.append({"kind": "uni+deribit", "interval": 1, "start": 3600 * 5, "k": cut, "pre": pre, "s1": gen_bars(rng, rng.choice((0, 1)), last),
+                    "s2": gen_bars(rng, later[-1] - cut + 5, last + 17), "seed": 11, "price_kind": "native", "form": "tuple", "row_order": "sorted",
+                    "plan": plan, "crafted": "off-hour-balance"})
+    # (b) a held option whose quote is missing from the last common hourly snapshot (the other instruments are quoted) and is quoted again — differently
+    #     in the two histories — afterwards
+    for order in ("sorted", "far-first"):
+        pre = gen_bars(rng, 180, 201000)
+        last = pre[-1]["close"]
+        out.append({"kind": "deribit", "interval": 60, "start": 3600 * 3, "k": 180, "pre": pre, "s1": gen_bars(rng, 60, last), "s2": gen_bars(rng, 120, last + 90),
+                    "seed": 12, "price_kind": "native", "form": "tuple", "row_order": order, "missing": {"2": [1]},
+                    "plan": {"0": [["deposit", 5], ["buy", "ETH-X-1900-C", 2]], "1": [["estimate", "ETH-X-1900-C", 1]]}, "crafted": "quote-missing-then-back"})
+    # (c) read-only cost queries on a book whose sides are listed best-first with unique prices (what an exchange delivers), then a trade
+    pre = gen_bars(rng, 120, 201000)
+    last = pre[-1]["close"]
+    out.append({"kind": "deribit", "interval": 60, "start": 3600 * 2, "k": 120, "pre": pre, "s1": gen_bars(rng, 60, last), "s2": gen_bars(rng, 60, last + 50),
+                "seed": 14, "price_kind": "native", "form": "tuple", "row_order": "sorted",
+                "plan": {"0": [["deposit", 5], ["estimate", "ETH-X-1700-C", 2], ["buy", "ETH-X-1700-C", 2]],
+                         "1": [["estimate", "ETH-X-1700-C", 3], ["estimate", "ETH-Y-1800-C", 1], ["sell", "ETH-X-1700-C", 1]],
+                         "2": [["estimate", "ETH-X-1700-C", 1]]}, "crafted": "estimate-cost"})
+    pre = gen_bars(rng, 70, 201000)
+    last = pre[-1]["close"]
+    out.append({"kind": "uni+deribit", "interval": 1, "start": 3600 * 7, "k": 70, "pre": pre, "s1": gen_bars(rng, 3, last), "s2": gen_bars(rng, 8, last + 5),
+                "seed": 15, "price_kind": "native", "form": "tuple", "row_order": "far-first",
+                "plan": {"0": [["estimate", "ETH-X-1700-C", 2], ["buy", "ETH-X-1700-C", 2]], "60": [["estimate", "ETH-X-1700-C", 2], ["estimate", "ETH-X-1900-C", 1]]},
+                "crafted": "estimate-cost"})
+    return out
+
+
 def run(ctx: Ctx):
     cl.setup()
-    n = ctx.scale(72, 600)
+    for case in crafted_pairs():
+        check_pair(ctx, case)
+    n = ctx.scale(84, 600)
     for i in range(n):
         if ctx.thorough:
             check_pair(ctx, gen_pair(ctx.rng))
